@@ -718,7 +718,10 @@ func flushHeredocTemplateParts(parts *templateParts) {
         // Since we want to count space _characters_ rather than space _bytes_,
         // we can't just do a straightforward slice operation here and instead
         // need to hunt for the split point with a scanner.
-        valBytes := []byte(lit.Val)
+        // only the leading whitespace is scanned: it was counted on its own above, and a
+        // combining mark right after it must not be merged into the last space's cluster
+        wsLen := len(lit.Val) - len(strings.TrimLeftFunc(lit.Val, unicode.IsSpace))
+        valBytes := []byte(lit.Val[:wsLen])
         spaceByteCount := 0
         for i := 0; i < minSpaces; i++ {
             adv, _, _ := textseg.ScanGraphemeClusters(valBytes, true)
